@@ -1743,6 +1743,8 @@ impl TestTextSelection for TextSelection {
                     let l = reftextsel.begin - self.end;
                     if l == 0 {
                         true
+                    } else if l > WHITESPACE_LIMIT {
+                        false
                     } else {
                         if let Ok(gap) =
                             resource.text_by_offset(&Offset::simple(self.end, reftextsel.begin))
@@ -1767,6 +1769,8 @@ impl TestTextSelection for TextSelection {
                     let l = self.begin - reftextsel.end;
                     if l == 0 {
                         true
+                    } else if l > WHITESPACE_LIMIT {
+                        false
                     } else {
                         if let Ok(gap) =
                             resource.text_by_offset(&Offset::simple(reftextsel.end, self.begin))
@@ -1934,6 +1938,8 @@ impl TestTextSelection for TextSelection {
                         false
                     } else if leftmost == self.end {
                         true
+                    } else if leftmost - self.end > WHITESPACE_LIMIT {
+                        false
                     } else {
                         if let Ok(gap) =
                             resource.text_by_offset(&Offset::simple(self.end, leftmost))
@@ -1968,6 +1974,8 @@ impl TestTextSelection for TextSelection {
                         false
                     } else if self.begin == rightmost {
                         true
+                    } else if self.begin - rightmost > WHITESPACE_LIMIT {
+                        false
                     } else {
                         if let Ok(gap) =
                             resource.text_by_offset(&Offset::simple(rightmost, self.begin))
